@@ -233,6 +233,19 @@ func Run(ctx *core.Ctx) int {
 			if !rec(0) {
 				return
 			}
+			// byte-valued policies: the whole value alphabet including the zero-length value (a value that is empty live is
+			// nil once the log has been through the wire format), one ordinal, two blocks of <=2 operations
+			if c.Policy == "set" || c.Policy == "set_if_not_exists" || c.Policy == "append" {
+				var eb [][]refmodel.Op
+				refmodel.Sequences(refmodel.OpAlphabet(c, 3, []uint64{0}), maxOps, func(s []refmodel.Op) bool { eb = append(eb, s); return true })
+				for _, b0 := range eb {
+					for _, b1 := range eb {
+						if !emit(Case{Combo: c, Blocks: [][]refmodel.Op{b0, b1}}) {
+							return
+						}
+					}
+				}
+			}
 			// ordinals are free 64-bit numbers: far-apart ordinals (0, 2^63, 2^64-1) in one block, then a second block
 			// of one operation
 			xalpha := refmodel.OpAlphabet(c, 1, []uint64{0, 1 << 63, ^uint64(0)})
@@ -271,7 +284,7 @@ func Run(ctx *core.Ctx) int {
 	ctx.Cov["distinct_nontrivial"] = st.NonTrivial
 	ctx.Cov["exhaustive"] = true
 	ctx.Cov["combos"] = len(combos)
-	ctx.Cov["rule"] = fmt.Sprintf("%d combos x every chain of %d blocks, each block every operation list of length <=%d over (3 keys x 2 values x ordinals %v) + delete_prefix a/b/'' (thorough: + 3-block chains of single operations); + every block of <=3 operations with ordinals from {0, 2^63, 2^64-1}. For each block: real execution through the host interface + Flush gives deltas and ReadOps(); a second store in the same pre-state gets Reset()+ApplyOps(log) (what RunModule's cached branch does); deltas compared one by one (proto.Equal), content and SizeBytes compared; same for a PartialKV incl. DeletedPrefixes, then both partials saved, loaded and merged onto 2 non-empty bases. Non-trivial: a block with >=2 operations or a delete_prefix on a non-empty pre-state.", len(combos), nblocks, maxOps, ords)
+	ctx.Cov["rule"] = fmt.Sprintf("%d combos x every chain of %d blocks, each block every operation list of length <=%d over (3 keys x 2 values x ordinals %v) + delete_prefix a/b/'' (thorough: + 3-block chains of single operations); + every block of <=3 operations with ordinals from {0, 2^63, 2^64-1}; + for set/set_if_not_exists/append every 2-block chain over the 3-value alphabet that includes the zero-length value. For each block: real execution through the host interface + Flush gives deltas and ReadOps(); a second store in the same pre-state gets Reset()+ApplyOps(log) (what RunModule's cached branch does); deltas compared one by one (proto.Equal), content and SizeBytes compared; same for a PartialKV incl. DeletedPrefixes, then both partials saved, loaded and merged onto 2 non-empty bases. Non-trivial: a block with >=2 operations or a delete_prefix on a non-empty pre-state.", len(combos), nblocks, maxOps, ords)
 	ctx.Assume = []string{
 		"the replaying store is Reset() before each block as pipeline.resetStores does",
 		"both the store-level mirror (Reset+ApplyOps on the log read after Flush) and the production entry point (exec.RunModule on a StoreModuleExecutor with a scripted module issuing the operations in call order, then RunModule's cached branch on the recorded outputForFiles) are compared",
